@@ -71,13 +71,13 @@ func (c11) Assumptions() []string {
 	}
 }
 func (c11) Parties() map[string]string {
-	return map[string]string{"cors.Middleware": "real", "wrapped handler": "stub (scripted, records invocation count and argument identity)", "ResponseWriter": "stub (records every Header/WriteHeader/Write call)", "preflight predicate": "model (independent)"}
+	return map[string]string{"cors.Middleware": "real", "wrapped handler": "stub (scripted, records invocation count and argument identity)", "ResponseWriter": "stub (records every Header/WriteHeader/Write call)", "preflight predicate": "model (independent)", "net/http server + client over net.Pipe (wire world, a few exchanges per run)": "real (stdlib)"}
 }
 func (c11) FaultKinds() []string {
 	return []string{"handler_writes_after_writeheader", "handler_deletes_cors_header", "handler_sets_vary", "preset_vary_present", "preset_cors_header_present", "zero_length_header_list", "multi_valued_origin"}
 }
 func (c11) Probes() []string {
-	return []string{"preflight_on_configured", "preflight_on_passthrough", "non_preflight_options_with_origin", "actual_request_with_preset", "handler_invoked_once", "reconfigure_to_passthrough_and_back", "via_long_lived_wrapped_handler", "bystander_request_headers", "head_serialised_after_the_next_request"}
+	return []string{"preflight_on_configured", "preflight_on_passthrough", "non_preflight_options_with_origin", "actual_request_with_preset", "handler_invoked_once", "reconfigure_to_passthrough_and_back", "via_long_lived_wrapped_handler", "bystander_request_headers", "head_serialised_after_the_next_request", "wire_world_compared"}
 }
 
 var c11HdrNames = []string{"Vary", "Access-Control-Allow-Origin", "Access-Control-Allow-Credentials", "Access-Control-Expose-Headers",
@@ -372,6 +372,81 @@ func (c11) Exec(plan any, c *Ctx) *Violation {
 		}
 	}
 	c.Nontrivial = (sawConf && sawPass) || nConf >= 2
+	// ---- the wire world (wire.go): the middleware as the history left it, behind a real
+	// net/http server; what the recording writer says the client receives must be what a
+	// real client receives
+	if v := c11Wire(m, p, c); v != nil {
+		return v
+	}
+	return nil
+}
+
+type plainScript struct{ sc Script }
+
+func (h plainScript) ServeHTTP(w http.ResponseWriter, r *http.Request) {
+	applyOps(w.Header(), h.sc.Ops)
+	if h.sc.Status != 0 {
+		w.WriteHeader(h.sc.Status)
+	}
+	for _, chunk := range h.sc.Body {
+		w.Write([]byte(chunk))
+	}
+	applyOps(w.Header(), h.sc.LateOps)
+}
+
+func c11Wire(m *cors.Middleware, p *C11Plan, c *Ctx) *Violation {
+	if len(p.Scripts) == 0 || len(p.Presets) == 0 {
+		return nil
+	}
+	cands := append(append([]Req{}, p.Extra...), c11Grid[p.Salt%len(c11Grid)], c11Grid[(p.Salt/7)%len(c11Grid)])
+	n := 0
+	for i, q := range cands {
+		if n >= 6 {
+			break
+		}
+		q.Shape = 0 // what else an *http.Request carries is the server's to decide here
+		skip := false
+		// field values as they can arrive: optional whitespace around a value is not part of it
+		trimmed := make([]HV, len(q.H))
+		for j, hv := range q.H {
+			trimmed[j] = HV{hv.K, make([]string, len(hv.V))}
+			for k, v := range hv.V {
+				trimmed[j].V[k] = strings.Trim(v, " \t")
+			}
+		}
+		q.H = trimmed
+		for _, hv := range q.H {
+			switch hv.K {
+			case "Connection", "Upgrade", "Expect", "Content-Length", "Te", "Transfer-Encoding", "Host":
+				skip = true
+			}
+		}
+		if skip {
+			continue
+		}
+		sc, preset := p.Scripts[(p.Salt+i)%len(p.Scripts)], p.Presets[(p.Salt/3+i)%len(p.Presets)]
+		chain := http.HandlerFunc(func(w http.ResponseWriter, r *http.Request) {
+			for _, hv := range preset { // an outer layer that ran before the CORS middleware
+				w.Header()[hv.K] = append([]string{}, hv.V...)
+			}
+			m.Wrap(plainScript{sc}).ServeHTTP(w, r)
+		})
+		direct := newRec(nil)
+		direct.keepSnap = true
+		if pan := catch(func() { chain.ServeHTTP(direct, q.build()) }); pan != "" {
+			return &Violation{Class: "panic", Key: "serve", Detail: fmt.Sprintf("wire world, direct call: %s: %s", q, pan)}
+		}
+		wr, ok := getWire().do(chain, q)
+		if !ok {
+			c.hit("wire_world_request_cannot_travel")
+			continue
+		}
+		n++
+		c.hit("wire_world_compared")
+		if d := compareWire(direct, wr, q.Method); d != "" {
+			return &Violation{Class: "client-receives-something-else", Key: "wire", Detail: fmt.Sprintf("req=%s preset=%v script=%+v: behind a real net/http server the client does not receive what the recording writer recorded: %s", q, preset, sc, d)}
+		}
+	}
 	return nil
 }
 
